@@ -647,6 +647,17 @@ async def a_raise(L, H, box):
     yield 1
     raise KeyError('u:a')
 
+async def a_cancel_cleanup(L, H, box):
+    try:
+        yield 1
+    finally:
+        try:
+            await H.Aw(L, 'c1')
+        except ValueError:
+            L('cancelled')
+            await H.Aw(L, 'c2')
+        L('cleaned')
+
 async def a_return(L, H, box):
     return
     yield 1
@@ -662,7 +673,7 @@ SYNC = ['s_yield2', 's_echo', 's_for', 's_while', 's_finally', 's_finally_yield'
 CORO = ['c_two', 'c_finally', 'c_catch', 'c_awgen', 'c_with', 'c_for', 'c_sub_own', 'c_sub_py', 'c_return',
         'c_raise_si', 'c_ge']
 AGEN = ['a_yield2', 'a_echo', 'a_finally_await', 'a_ve', 'a_await_first', 'a_finally_yield', 'a_ge', 'a_for',
-        'a_raise', 'a_return']
+        'a_raise', 'a_return', 'a_cancel_cleanup']
 
 # body class used in violation keys (coarse construct class of the body)
 BODY_CLASS = {
@@ -685,5 +696,5 @@ BODY_CLASS = {
     'c_return': 'return', 'c_raise_si': 'raise-StopIteration', 'c_ge': 'await-except-GeneratorExit',
     'a_yield2': 'plain', 'a_echo': 'await', 'a_finally_await': 'await-in-finally', 'a_ve': 'except-ValueError',
     'a_await_first': 'await', 'a_finally_yield': 'yield-in-finally', 'a_ge': 'except-GeneratorExit',
-    'a_for': 'async-for', 'a_raise': 'raise', 'a_return': 'return',
+    'a_for': 'async-for', 'a_raise': 'raise', 'a_return': 'return', 'a_cancel_cleanup': 'await-in-finally',
 }
